@@ -72,6 +72,7 @@ type World struct {
 	sentN     int
 	plugged   bool
 	removeNow bool // inside RemoveNow
+	ovfErrs   int  // ErrEventOverflow values received for the current overflow burst
 
 	pending                []Ev   // expected since last sync
 	pendOpt                []bool // parallel to pending: may legitimately be dropped (watch removed while pending)
@@ -617,6 +618,13 @@ func (w *World) gotError(err error) {
 	w.Errs = append(w.Errs, err)
 	if w.overflowing && errors.Is(err, fsnotify.ErrEventOverflow) {
 		w.Feat["overflow-errors-received"]++
+		w.ovfErrs++
+		// the burst is queued while the reader is parked: the kernel puts ONE
+		// overflow marker at the tail of its full queue and drops the rest;
+		// the few changes made afterwards fit into the room the first read made
+		if w.ovfErrs == 4 {
+			w.find(FErrors, "ErrEventOverflow received %d times (and counting) for one overflow of the kernel queue", w.ovfErrs)
+		}
 		return
 	}
 	w.find(FErrors, "received on Errors: %v", err)
@@ -630,6 +638,7 @@ func (w *World) gotError(err error) {
 func (w *World) Overflow(dir string, n int) {
 	w.Plug()
 	w.overflowing = true
+	w.ovfErrs = 0
 	a, b := filepath.Join(dir, "ovf-a"), filepath.Join(dir, "ovf-b")
 	for _, p := range []string{a, b} {
 		if fd, err := unix.Open(p, unix.O_CREAT|unix.O_WRONLY|unix.O_CLOEXEC, 0o644); err == nil {
@@ -666,6 +675,9 @@ func (w *World) Overflow(dir string, n int) {
 					w.gotError(err)
 				}
 			case <-time.After(time.Millisecond):
+			}
+			if w.Failed() {
+				return false
 			}
 			if time.Now().After(deadline) {
 				if w.wedge("kernel queue not drained after an overflow burst") == wedgeRetry {
